@@ -2111,14 +2111,16 @@ class Circuit(Unitary, StateVectorMap, Collection[Operation]):
         circuit = self.batch_pop(region.points)
 
         # Insert popped circuit as a CircuitGate
-        self.insert_circuit(
-            region.min_cycle,
-            circuit,
-            sorted(list(region.keys())),
-            True,
-        )
+        location = sorted(list(region.keys()))
+        if region.min_cycle >= self.num_cycles:
+            # Popping the region removed every cycle from its start on, so
+            # the block is appended and may land in an earlier cycle.
+            cycle_index = self.append_circuit(circuit, location, True)
+        else:
+            cycle_index = region.min_cycle
+            self.insert_circuit(cycle_index, circuit, location, True)
 
-        return CircuitPoint(region.min_cycle, region.min_qudit)
+        return CircuitPoint(cycle_index, region.min_qudit)
 
     def unfold(self, point: CircuitPointLike) -> None:
         """Unfold the CircuitGate at `point` into the circuit."""
